@@ -77,6 +77,19 @@ impl StunMessageTimeout {
     }
 }
 
+#[cfg(feature = "verif-hooks")]
+impl StunMessageTimeout {
+    pub(crate) fn verif_entries(&self) -> Vec<(TransactionId, Instant, Duration)> {
+        let mut v: Vec<(TransactionId, Instant, Duration)> = self
+            .timeouts
+            .iter()
+            .map(|item| (item.0.transaction_id, item.0.instant, item.0.timeout))
+            .collect();
+        v.sort_by_key(|e| (e.1 + e.2, e.0));
+        v
+    }
+}
+
 pub const DEFAULT_RTO: Duration = Duration::from_millis(500);
 pub const DEFAULT_RC: u32 = 7;
 pub const DEFAULT_RM: u32 = 16;
